@@ -7,6 +7,8 @@ model step, the fallback and the normal-form pass meaning-preserving).  Oracle o
 own outputs: wherever the input is defined, the output (final and intermediate forms) is defined
 and has the same value (model evaluation of both; exact in Q when possible)."""
 from __future__ import annotations
+
+import re
 import random
 
 from .. import wire, gen, common, instrument
@@ -199,12 +201,63 @@ def check_cases(cases: list[dict], rep: Report, known: dict) -> None:
         if "exact" not in case and a_out[0] == "ok" and answers_agree(widen(a_in, vin), widen(a_out, vout)):
             rep.count("semantic", "preserved-after-widening")
             continue
+        if "exact" not in case and a_out[0] == "ok":
+            slack = folding_slack(c["e"], wire.expr(out), out_point(label, out, ptxt), a_out[1].v)
+            if slack is None:
+                rep.skip("rounding-ambiguous")
+                continue
+            x, y = widen(a_in, vin)[1], widen(a_out, vout)[1]
+            if abs(x.v - y.v) <= slack + 64 * (x.err + y.err) + 64 * 2.3e-16 * max(abs(x.v), abs(y.v)):
+                # "up to rounding of folded constants": Add(1 - y, c) folds to (1 + c) - y, and at y = 1 the
+                # half ulp lost in 1 + c is all that is left (sweep seed 149)
+                rep.count("semantic", "preserved-up-to-rounding-of-folded-constants")
+                continue
         if k1_explains(c, label, ptxt):
             rep.known("K1", "NthRoot(NthPower(u, m), n) with n, m even rewritten to NthPower(NthRoot(u, n), m): value or domain changes for negative u",
                       {"e": c["e"][:300], "p": ptxt, "form": label})
             continue
         what = "is undefined" if a_out[0] != "ok" else "has a different value"
         rep.violation(f"simplified form ({label}) {what} at a point where the input is defined: input {sb[jf]}, output {sb[of]}", case)
+
+
+FOLD_ULPS = 8
+
+
+def folding_slack(etxt: str, otxt: str, optxt: str, v0: float):
+    """first-order effect on the output's value of moving every float constant the simplifier created (one
+    that does not occur in the input) by FOLD_ULPS units in its last place, one constant at a time; None when
+    such a move changes whether the output is defined"""
+    import math
+    import struct
+    have = set(re.findall(r"\bx[0-9a-f]{16}\b", etxt))
+    toks = otxt.split(" ")
+    sites = [i for i, t in enumerate(toks) if i and toks[i - 1] == "C" and re.fullmatch(r"x[0-9a-f]{16}", t) and t not in have]
+    if not sites or len(sites) > 40:
+        return 0.0
+    b = Batch()
+    asks = []
+    for i in sites:
+        v = struct.unpack("<d", struct.pack("<Q", int(toks[i][1:], 16)))[0]
+        if not math.isfinite(v):
+            return 0.0
+        u = math.ulp(v) * FOLD_ULPS
+        pair = []
+        for w in (v + u, v - u):
+            t2 = toks[:]
+            t2[i] = wire.num(w)
+            pair.append(b.ask(f"F0 eval {' '.join(t2)} {optxt}"))
+        asks.append(pair)
+    b.run()
+    total = 0.0
+    for pair in asks:
+        worst = 0.0
+        for k in pair:
+            a = _num_answer(b[k])
+            if a[0] != "ok":
+                return None
+            worst = max(worst, abs(a[1].v - v0) + a[1].err)
+        total += worst
+    return total
 
 
 def out_point(label: str, out, ptxt: str) -> str:
